@@ -345,9 +345,15 @@ def rule_keep_alive(ctx):
         ctx.violation("Nucleo::<T>::restart|replace|1", site(rs, 0), "restart does not replace self.items by assignment (old handle dropped)")
 
 
+def rule_lifetime_witness(ctx):
+    import witness
+    witness.rule(ctx, ("C11",), "an Item could outlive the handle that keeps its stream alive (use after free once the stream is dropped)")
+
+
 def rules(ctx):
     ctx.run_rule("C11.drop-visits-all", rule_drop_visits_all)
     ctx.run_rule("C11.dealloc-callers", rule_dealloc_callers)
     ctx.run_rule("C11.drop-gated", rule_drop_gated)
     ctx.run_rule("C11.panic-order", rule_panic_order)
     ctx.run_rule("C11.keep-alive", rule_keep_alive)
+    ctx.run_rule("C11.lifetime-witness", rule_lifetime_witness)
